@@ -38,24 +38,42 @@ ASSUMPTIONS = ["fake microgrid API; virtual time"]
 CID = 7
 
 
+_PH = ["ACTIVE_POWER_PHASE_", "REACTIVE_POWER_PHASE_", "CURRENT_PHASE_", "VOLTAGE_PHASE_"]
+_ELEC = (["ACTIVE_POWER", "REACTIVE_POWER", "FREQUENCY"] + [p + str(k) for p in _PH for k in (1, 2, 3)])
+# every metric each component category offers (harness-side table: metric name <-> message field by naming convention)
+METRIC_NAMES = {
+    "meter": _ELEC,
+    "ev": _ELEC,
+    "inverter": _ELEC + ["ACTIVE_POWER_INCLUSION_LOWER_BOUND", "ACTIVE_POWER_EXCLUSION_LOWER_BOUND",
+                         "ACTIVE_POWER_EXCLUSION_UPPER_BOUND", "ACTIVE_POWER_INCLUSION_UPPER_BOUND"],
+    "battery": ["SOC", "SOC_LOWER_BOUND", "SOC_UPPER_BOUND", "CAPACITY", "POWER_INCLUSION_LOWER_BOUND",
+                "POWER_EXCLUSION_LOWER_BOUND", "POWER_EXCLUSION_UPPER_BOUND", "POWER_INCLUSION_UPPER_BOUND", "TEMPERATURE"],
+}
+
+
+def _field(metric_name: str) -> tuple[str, int | None]:
+    """Message attribute (and tuple index) a metric is documented to come from."""
+    for pre in _PH:
+        if metric_name.startswith(pre):
+            return pre[:-len("PHASE_")].lower() + "per_phase", int(metric_name[-1]) - 1
+    return metric_name.lower(), None
+
+
 def _metrics(kind: str) -> list[Any]:
     from frequenz.client.microgrid import ComponentMetricId as M
 
-    return {"meter": [M.ACTIVE_POWER, M.VOLTAGE_PHASE_1, M.FREQUENCY, M.CURRENT_PHASE_2],
-            "inverter": [M.ACTIVE_POWER, M.ACTIVE_POWER_INCLUSION_LOWER_BOUND, M.FREQUENCY],
-            "battery": [M.SOC, M.CAPACITY, M.POWER_INCLUSION_UPPER_BOUND],
-            "ev": [M.ACTIVE_POWER, M.CURRENT_PHASE_2, M.FREQUENCY, M.VOLTAGE_PHASE_1]}[kind]
+    return [getattr(M, n) for n in METRIC_NAMES[kind]]
 
 
-OFF = {"meter": [0.1, 0.2, 0.3, 0.4], "inverter": [0.1, 0.2, 0.3], "battery": [0.1, 0.2, 0.3], "ev": [0.1, 0.4, 0.3, 0.2]}
-
-
-def _val(n: int, off: float) -> float:
-    """Metric value of message n: distinct per (n, metric); exactly 0.0 for some messages (a valid, falsy value)."""
-    return 0.0 if (n + round(off * 10)) % 6 == 0 else n + off
+def _val(n: int, kind: str, mi: int) -> float:
+    """Value of metric number `mi` in message n: identifies both the message and the field; exactly 0.0 for
+    some (a valid, falsy value)."""
+    return 0.0 if (n + mi) % 7 == 0 else n + (mi + 1) / 100.0
 
 
 def _mkmsg(kind: str, n: int) -> Any:
+    import dataclasses
+
     from frequenz.client.microgrid import (EVChargerCableState, EVChargerComponentState,
                                            EVChargerData, MeterData)
 
@@ -64,23 +82,30 @@ def _mkmsg(kind: str, n: int) -> Any:
     ts = EPOCH + timedelta(seconds=n)
     z = (0.0, 0.0, 0.0)
     if kind == "meter":
-        return MeterData(component_id=CID, timestamp=ts, active_power=_val(n, 0.1), active_power_per_phase=z,
-                         reactive_power=0.0, reactive_power_per_phase=z, current_per_phase=(0.0, _val(n, 0.4), 0.0),
-                         voltage_per_phase=(_val(n, 0.2), 0.0, 0.0), frequency=_val(n, 0.3))
-    if kind == "inverter":
-        import dataclasses
-
-        m = batdata.mk_inverter(CID, {"il": _val(n, 0.2), "el": 0.0, "eu": 0.0, "iu": 0.0}, ts)
-        return dataclasses.replace(m, active_power=_val(n, 0.1), frequency=_val(n, 0.3))
-    if kind == "battery":
-        return batdata.mk_battery(CID, {"soc": _val(n, 0.1), "cap": _val(n, 0.2), "lo": 0.0, "hi": 100.0, "il": 0.0, "el": 0.0,
-                                        "eu": 0.0, "iu": _val(n, 0.3)}, ts)
-    return EVChargerData(component_id=CID, timestamp=ts, active_power=_val(n, 0.1), active_power_per_phase=z,
-                         current_per_phase=(0.0, _val(n, 0.4), 0.0), reactive_power=0.0, reactive_power_per_phase=z,
-                         voltage_per_phase=(_val(n, 0.2), 0.0, 0.0), active_power_inclusion_lower_bound=0.0,
-                         active_power_exclusion_lower_bound=0.0, active_power_inclusion_upper_bound=0.0,
-                         active_power_exclusion_upper_bound=0.0, frequency=_val(n, 0.3),
-                         cable_state=EVChargerCableState.EV_LOCKED, component_state=EVChargerComponentState.CHARGING)
+        m: Any = MeterData(component_id=CID, timestamp=ts, active_power=0.0, active_power_per_phase=z, reactive_power=0.0,
+                           reactive_power_per_phase=z, current_per_phase=z, voltage_per_phase=z, frequency=0.0)
+    elif kind == "inverter":
+        m = batdata.mk_inverter(CID, {"il": 0.0, "el": 0.0, "eu": 0.0, "iu": 0.0}, ts)
+    elif kind == "battery":
+        m = batdata.mk_battery(CID, {"soc": 0.0, "cap": 0.0, "lo": 0.0, "hi": 100.0, "il": 0.0, "el": 0.0, "eu": 0.0,
+                                     "iu": 0.0}, ts)
+    else:
+        m = EVChargerData(component_id=CID, timestamp=ts, active_power=0.0, active_power_per_phase=z,
+                          current_per_phase=z, reactive_power=0.0, reactive_power_per_phase=z,
+                          voltage_per_phase=z, active_power_inclusion_lower_bound=0.0,
+                          active_power_exclusion_lower_bound=0.0, active_power_inclusion_upper_bound=0.0,
+                          active_power_exclusion_upper_bound=0.0, frequency=0.0,
+                          cable_state=EVChargerCableState.EV_LOCKED, component_state=EVChargerComponentState.CHARGING)
+    fields: dict[str, Any] = {}
+    for mi, name in enumerate(METRIC_NAMES[kind]):
+        attr, idx = _field(name)
+        if idx is None:
+            fields[attr] = _val(n, kind, mi)
+        else:
+            t = list(fields.get(attr, z))
+            t[idx] = _val(n, kind, mi)
+            fields[attr] = tuple(t)
+    return dataclasses.replace(m, **fields)
 
 
 def budget(tier: str) -> dict[str, Any]:
@@ -92,7 +117,7 @@ def budget(tier: str) -> dict[str, Any]:
 def gen(rng: Any, tier: str, i: int) -> Any:
     kind = rng.choice(["meter", "inverter", "battery", "ev"])
     nmsg = rng.randint(10, 40)
-    nm = len(OFF[kind])
+    nm = len(METRIC_NAMES[kind])
     subs = []
     for _ in range(rng.randint(1, 8)):
         subs.append([rng.choice([0, 0, rng.randint(0, nmsg - 3)]), rng.choice(["a", "b"]), rng.randrange(nm),
@@ -216,11 +241,12 @@ def check(case: dict[str, Any], rec: Any) -> None:
             rec.count("streams_that_also_got_queued_older_messages")
         if s["idle_after_request"] and idx[0] > n0:
             rec.violation("first-message-after-an-idle-subscription-not-delivered", w)
-        off = OFF[kind][s["mi"]]
+        rec.bucket("metric:" + METRIC_NAMES[kind][s["mi"]].lower().rstrip("_123"))
         for i, v, ts_ok in got:
-            if v is None or abs(v - _val(i, off)) > 1e-9 or not ts_ok:
-                rec.violation("sample-value-or-timestamp-differs-from-the-message", {**w, "index": i, "value": v,
-                                                                                      "expected": _val(i, off)})
+            if v is None or abs(v - _val(i, kind, s["mi"])) > 1e-9 or not ts_ok:
+                rec.violation("sample-value-or-timestamp-differs-from-the-message",
+                              {**w, "index": i, "value": v, "expected": _val(i, kind, s["mi"]),
+                               "metric": METRIC_NAMES[kind][s["mi"]]})
                 break
         shown[name] = idx[:3] + ["...", idx[-1]]
     real = [e for e in mon.loop_exceptions if e["exception"] != "None"]
